@@ -12,7 +12,7 @@ from engine.model import data as D
 N = 1026           # elements per variable: requests of 1023/1024/1025 ints sit on both sides of the 4096-byte in-place-swap threshold
 SIZES_INT = [1, 3, 1023, 1024, 1025]
 XT = [D.NC_SHORT, D.NC_INT, D.NC_FLOAT, D.NC_DOUBLE, D.NC_INT64]
-LAYS = [None, 'vec:1:2', 'idx', 'rsz:1:3']
+LAYS = [None, 'vec:1:2', 'idx', 'rsz:1:3', 'cont2']
 HINTS = [None, 'nc_in_place_swap=enable', 'nc_in_place_swap=disable']
 
 
@@ -36,7 +36,7 @@ def gen_buffers(thorough):
                 s.op('*', 'buffer_attach', size=1 << 20)
                 tag = 0; slot = 0
                 for n in sizes_for(xt):
-                    for lay in (LAYS if thorough else LAYS[:3]):
+                    for lay in (LAYS if thorough else [None, 'vec:1:2', 'cont2']):
                         if lay and n > 1025: continue
                         for path in ('blocking', 'iput-wait_all', 'iput-cancel', 'bput-wait_all', 'bput-poke', 'varn', 'ivarn-wait', 'vard', 'varm-pad', 'erange', 'eiomismatch', 'indep-wait'):
                             tag = tag % 90 + 1
